@@ -95,6 +95,40 @@ func checkC05(r *core.Run) {
 		}
 		c05FencePhase(r, prep, "FencePhasePrepare")
 	}
+	// ---------------- register step: every nil return registered a branch (down to RMRemoting.BranchRegister)
+	for fn, depth := regFn, 0; fn != nil && depth < 4; depth++ {
+		r.Fn(fn)
+		sp := &flow.Spec{W: w, Depth: 0, Classify: func(pkg *packages.Package, call *ast.CallExpr, callee *types.Func) []flow.Tag {
+			if callee != nil && (isBranchRegister(w, callee) || w.Info(callee) != nil && reg.Hits(callee)) {
+				return []flow.Tag{"regstep"}
+			}
+			return nil
+		}}
+		res := sp.Analyze(fn)
+		var next *core.FuncInfo
+		direct := false
+		for _, cp := range res.Calls {
+			if inSet("regstep", cp.Tags...) {
+				if isBranchRegister(w, cp.Callee) {
+					direct = true
+				} else {
+					next = w.Info(cp.Callee)
+				}
+			}
+		}
+		for _, ex := range res.Exits {
+			if ex.Class == flow.ExitErr {
+				continue
+			}
+			r.Sites++
+			r.Check(ex.St.Has("ok:regstep"), "C05.before", core.ShortKey(fn.Obj)+" "+exitRole(ex, func(t string) bool { return strings.HasSuffix(t, "regstep") })+" : success only after a successful BranchRegister", w.Pos(ex.Pos),
+				"the step reports success only on the nil-error edge of the registration", "the registration step can return nil without having registered a branch (a path skips BranchRegister): try then runs in a global transaction the coordinator knows nothing about, and neither commit nor rollback is ever dispatched for it")
+		}
+		if direct {
+			break
+		}
+		fn = next
+	}
 	// ---------------- register step: parameters
 	if regFn == nil {
 		r.Anchor("C05.param", nil, "registration step of the TCC proxy")
